@@ -7,6 +7,7 @@ import Jrpc.Oracle.C13
 import Jrpc.Oracle.C03
 import Jrpc.Oracle.C06
 import Jrpc.Oracle.C09
+import Jrpc.Oracle.C04
 /-! The model oracle: one line in, one line out. First token selects the sub-command. -/
 open Jrpc.Oracle
 
@@ -24,6 +25,7 @@ def dispatch (line : String) : String :=
   | "c06" :: r => C06.handleSem r
   | "c07" :: r => C06.handleIds r
   | "c09" :: r => C09.handle r
+  | "c04" :: r => C04.handle r
   | _ => "bad-op"
 
 partial def loop (h : IO.FS.Stream) (out : IO.FS.Stream) : IO Unit := do
